@@ -254,7 +254,8 @@ def job_misc(j, seed):
             cands.append((sig, case or {'ctx': what}, name))
 
     if what == 'comments':
-        for comment in ['one line', 'two\nlines', 'trailing newline\n', 'with # hash\n_tag looking\nloop_', 'crlf\r\nline', '']:
+        # CIF 1.1 ends a line at \n, \r\n and at a lone \r; the other separators Python's splitlines knows are covered as well
+        for comment in ['one line', 'two\nlines', 'trailing newline\n', 'with # hash\n_tag looking\nloop_', 'crlf\r\nline', '', 'lone\rcarriage return _tag.x 1', 'a\r\rb', 'form\x0cfeed', 'vertical\x0btab', 'sep\x1c\x1d\x1e.', 'next\x85line \u2028 \u2029 end']:
             f = io.StringIO()
             cif.Chunk({'a.x': 1}, comment=comment).write(f)
             lines = f.getvalue().splitlines()
@@ -524,6 +525,10 @@ def replay_real(case):
         toks = [t_ for t_ in cif_lex(f.getvalue()) if t_[0] != 'comment']
         if toks != [('tag', '_a.x'), ('value', '1')]:
             bad.append(f'comment leaks into data: {toks}')
+        lines_ = f.getvalue().splitlines()
+        stray = [ln for ln in lines_ if not ln.startswith('#') and not ln.startswith('_a.x')]
+        if stray or not lines_ or lines_[-1] != '_a.x 1':
+            bad.append(f'comment {case["comment"]!r}: text outside a comment line: {stray[:2]!r}')
     elif ctx == 'nonascii':
         v = case['value']
         f = io.StringIO()
